@@ -338,6 +338,8 @@ void TreeGraphImpl<GraphImpl>::rootAt(Graph::NodeId newRoot)
 {
   if (!isValid())
     throw Exception("TreeGraphImpl::rootAt: Tree is not Valid.");
+  // checked before the graph is made directed
+  GraphImpl::nodeMustExist_(newRoot, "new root");
 
   GraphImpl::makeDirected();
   // set the new root on the Graph
